@@ -590,7 +590,7 @@ class STRINGN(StringDataType):
             return UINT.encode(char_size) + UINT.encode(len(value)) + data
         except Exception as err:
             raise DataError(
-                f"Error encoding {_value_repr(value)} as STRINGN using char. size {char_size}"
+                f"Error encoding {_value_repr(value)} as STRINGN using char. size {_value_repr(char_size)}"
             ) from err
 
     @classmethod
@@ -821,13 +821,13 @@ def Array(
                 _num_values = len(values)
             except Exception as err:
                 raise DataError(
-                    f"Error packing {_value_repr(values)} into {cls.element_type}[{_length}]"
+                    f"Error packing {_value_repr(values)} into {cls.element_type}[{_value_repr(_length)}]"
                 ) from err
 
             if isinstance(_length, int):
                 if _num_values < _length:
                     raise DataError(
-                        f"Not enough values to encode array of {cls.element_type}[{_length}]"
+                        f"Not enough values to encode array of {cls.element_type}[{_value_repr(_length)}]"
                     )
 
                 _len = _length
@@ -857,7 +857,7 @@ def Array(
                 return b"".join(cls.element_type.encode(values[i]) for i in range(_len))
             except Exception as err:
                 raise DataError(
-                    f"Error packing {_value_repr(values)} into {cls.element_type}[{_length}]"
+                    f"Error packing {_value_repr(values)} into {cls.element_type}[{_value_repr(_length)}]"
                 ) from err
 
         @classmethod
